@@ -37,6 +37,34 @@ def main():
                 print("%-12s %-4s %s %s" % (i, p, "DETECTED" if detected else "MISSED", "(no-failing-input-found)" if nfi else ""))
                 for l in lines[:3]:
                     print("      ", l)
+                if "--harvest" in sys.argv and detected:
+                    # keep the smallest failing inputs as corpus lines (they run first on every later check)
+                    import re as _re
+                    cpath = os.path.join(ROOT, "corpus", p + ".cases")
+                    have = open(cpath).read() if os.path.exists(cpath) else ""
+                    added = 0
+                    for l in lines:
+                        mm = _re.match(r"VIOLATION property=\S+ replay=(\S+)", l)
+                        if not mm or added >= 2:
+                            continue
+                        try:
+                            r = json.load(open(os.path.join(ROOT, mm.group(1))))
+                        except Exception:
+                            continue
+                        if r.get("verdict") != "PROP":
+                            continue
+                        inp = r["line"].split(">")[0].strip()
+                        # only inputs within the master theorem's hypotheses (canonical operands ...): a later step of a
+                        # history may start from a state the seeded change itself corrupted, which says nothing on a good tree
+                        chk = subprocess.run([os.path.join(ROOT, "ocaml", "driver"), "prop"], input=inp + " > 5 1\n",
+                                             stdout=subprocess.PIPE, text=True).stdout
+                        if "in_scope=1" not in chk:
+                            continue
+                        if inp not in have and len(inp) < 4000:
+                            with open(cpath, "a") as f:
+                                f.write("# found with the seeded change %s\n%s\n" % (i, inp))
+                            have += inp
+                            added += 1
                 import re
                 m = re.search(r"(\d+) cases, (\d+) corr failures, (\d+) prop failures", out)
                 rows.append((i, p, ("DETECTED" + (" (no-failing-input-found)" if nfi else "")) if detected else "MISSED",
